@@ -34,6 +34,10 @@ theorem float0_noUB (gs : List Group) (g p : Bytes) : (float0 gs g p).NoUB :=
   Res.noUB_bind (getParam_noUB _ _ _) (fun q => Res.noUB_bind (asFloat_noUB q) (fun _ => atIdx_noUB _ _))
 theorem strsOf_noUB (gs : List Group) (g p : Bytes) : (strsOf gs g p).NoUB :=
   Res.noUB_bind (getParam_noUB _ _ _) (fun q => asString_noUB q)
+theorem labelsFor_noUB (frames : List Frame) (gs : List Group) (g : Bytes) : (labelsFor frames gs g).NoUB := by
+  unfold labelsFor; split
+  · exact strsOf_noUB _ _ _
+  · exact Res.noUB_ok _
 theorem groupIdx_noUB (gs : List Group) (g : Bytes) : (groupIdx gs g).NoUB := nameIdx_noUB _ _ _
 theorem gpIdx_noUB (gs : List Group) (g p : Bytes) : (gpIdx gs g p).NoUB :=
   Res.noUB_bind (groupIdx_noUB _ _) (fun _ => Res.noUB_bind (atIdx_noUB _ _) (fun _ =>
